@@ -23,6 +23,6 @@ k_TrainMq == {1, 250, 251, 1001, 10001}
 k_TrainD == {1, 4}
 \* numerators of n/4096: 0, 0.25, representable values, values between two float16 neighbours, exact ties
 k_F16N == {0, 1024, -1025, 2049, 4096, 4097, 4098, 4099, 4100, 4102, -4102, 4106, 8191, 8196, 8204, 12288, -12292}
-k_F16Nq == {0, 1024, 4097, 4098, 4102, -4106, 8196, 12288}
+k_F16Nq == {0, 1024, 4097, 4098, 4099, 4100, -4106, 8196, 12292}
 ASSUME \A n \in k_F16N \cup k_F16Nq : n = 0 \/ (Abs(n) >= 1024 /\ Abs(n) < 16384)
 =============================================================================
